@@ -199,3 +199,82 @@ kproof! {
         kani::cover!(n == 2 && kinds[0] == 2 && kinds[1] == 1, "zero run then repeat");
     }
 }
+
+// ---------------------------------------------------------------------------
+// K02c', concrete shapes: predict_tree_for_block -> recreate_tree_for_block with the length calculator replaced by a
+// deterministic stand-in whose output SIZES are concrete per instance (predicted HLIT / HDIST / code-length-code length)
+// and whose non-zero CONTENT is symbolic; the original header has concrete counts and item layout, symbolic code values,
+// symbolic HCLEN and a symbolic code-length code.  Decides: the three count corrections (both directions: resize up and
+// down), the order of the corrections, the code-length-order loop over HCLEN entries, trailing-zero trimming.
+// ---------------------------------------------------------------------------
+pub static mut S_LIT_N: usize = 0x5EED_0000_0000_0041;
+pub static mut S_DIST_N: usize = 0x5EED_0000_0000_0042;
+pub static mut S_TC_N: usize = 0x5EED_0000_0000_0043;
+pub static mut S_LIT_TAIL: [u8; 3] = [0x44, 0x45, 0x46];
+pub static mut S_DIST: [u8; 2] = [0x47, 0x48];
+pub static mut S_TC: [u8; 19] = [0x49; 19];
+pub fn stub_calc_bit_lengths_shape(_c: HufftreeBitCalc, sym_count: &[u16], _limit: usize) -> Vec<u8> {
+    unsafe {
+        if sym_count.len() == 19 {
+            let mut v = vec![0u8; S_TC_N];
+            let mut i = 0; while i < 19 { if i < S_TC_N { v[i] = S_TC[i]; } i += 1; }
+            v
+        } else if sym_count.len() == crate::preflate_constants::DIST_CODE_COUNT {
+            let mut v = vec![0u8; S_DIST_N];
+            v[0] = S_DIST[0];
+            if S_DIST_N >= 2 { v[S_DIST_N - 1] = S_DIST[1]; }
+            v
+        } else {
+            let mut v = vec![0u8; S_LIT_N];
+            v[S_LIT_N - 3] = S_LIT_TAIL[0]; v[S_LIT_N - 2] = S_LIT_TAIL[1]; v[S_LIT_N - 1] = S_LIT_TAIL[2];
+            v
+        }
+    }
+}
+fn tree_mirror_shape(lit_n: usize, dist_n: usize, tc_n: usize, hlit: usize, hdist: usize, zero_runs: &[u8]) {
+    unsafe {
+        S_LIT_N = lit_n; S_DIST_N = dist_n; S_TC_N = tc_n;
+        S_LIT_TAIL = kani::any(); S_DIST = kani::any(); S_TC = kani::any();
+        let mut i = 0; while i < 3 { kani::assume(S_LIT_TAIL[i] <= 15); i += 1; }
+        kani::assume(S_DIST[0] <= 15 && S_DIST[1] <= 15);
+        let mut i = 0; while i < 19 { kani::assume(S_TC[i] <= 7); i += 1; }
+    }
+    let hclen: usize = kani::any();
+    kani::assume(hclen >= 4 && hclen <= 19);
+    let a: u8 = kani::any(); let b: u8 = kani::any(); let c: u8 = kani::any();
+    kani::assume(a <= 15 && b <= 15 && c <= 15);
+    let mut items: Vec<(TreeCodeType, u8)> = Vec::with_capacity(zero_runs.len() + 3);
+    let mut i = 0; while i < zero_runs.len() { items.push((TreeCodeType::ZeroLong, zero_runs[i])); i += 1; }
+    items.push((TreeCodeType::Code, a)); items.push((TreeCodeType::Code, b)); items.push((TreeCodeType::Code, c));
+    let code_lengths: [u8; 19] = kani::any();
+    let mut i = 0; while i < 19 { kani::assume(code_lengths[i] <= 7); i += 1; }
+    // symbols beyond HCLEN are zero in a header that was read from a stream (k07e_*)
+    let mut i = 0; while i < 19 { if i >= hclen { kani::assume(code_lengths[crate::preflate_constants::TREE_CODE_ORDER_TABLE[i]] == 0); } i += 1; }
+    let nitems = items.len();
+    let enc = HuffmanOriginalEncoding { lengths: items, code_lengths, num_literals: hlit, num_dist: hdist, num_code_lengths: hclen };
+    let freq = TokenFrequency::default();
+    let mut rec = Rec::new();
+    let r = predict_tree_for_block(&enc, &freq, &mut rec, HufftreeBitCalc::Zlib);
+    assert!(r.is_ok());
+    let back = recreate_tree_for_block(&freq, &mut rec, HufftreeBitCalc::Zlib);
+    assert!(back.is_ok(), "recreate_tree_for_block fails on corrections predict_tree_for_block produced");
+    let back = back.unwrap();
+    assert!(back.num_literals == hlit && back.num_dist == hdist, "HLIT / HDIST changed");
+    assert!(back.num_code_lengths == hclen, "HCLEN changed");
+    assert!(back.lengths.len() == nitems, "number of run-length items changed");
+    let mut i = 0; while i < nitems { assert!(back.lengths[i] == enc.lengths[i], "run-length item changed"); i += 1; }
+    let mut i = 0; while i < 19 { assert!(back.code_lengths[i] == code_lengths[i], "code-length code changed"); i += 1; }
+    assert!(rec.fully_consumed(), "reconstruction did not consume the corrections exactly");
+    kani::cover!(hclen == 19, "full HCLEN");
+    kani::cover!(hclen == 4, "minimal HCLEN");
+    core::mem::forget(back); core::mem::forget(enc);
+}
+macro_rules! k02c { ($name:ident, $ln:expr, $dn:expr, $tn:expr, $hl:expr, $hd:expr, $runs:expr) => {
+    kproof! {
+        #[kani::stub(crate::huffman_calc::calc_bit_lengths, stub_calc_bit_lengths_shape)]
+        fn $name() { tree_mirror_shape($ln, $dn, $tn, $hl, $hd, $runs); }
+    }
+} }
+k02c!(k02c_tree_mirror_exact, 257, 1, 19, 257, 1, &[138, 117]);
+k02c!(k02c_tree_mirror_grow, 257, 1, 11, 286, 30, &[138, 138, 37]);
+k02c!(k02c_tree_mirror_shrink, 286, 30, 4, 257, 1, &[138, 117]);
